@@ -27,7 +27,7 @@ from .common import rng, shard_slice, stable_hash, muted
 LEVEL = 'exploration'
 RULE = ('random designs with 2-7 sequential leaves wired to each other (register rings with inverters, shift chains with XOR taps, '
         'counter feeding a memory address, UART / Vitis FSM blocks feeding registers, random Reg/Sequence/SynchronousMemory meshes, '
-        'two clock domains feeding each other), 10-24 cycles of random inputs; each design is run under every permutation of the '
+        'two clock domains feeding each other, 2-3 clock domains of equal frequency whose drivers differ in phaseOffset -- ungated and gated -- with a register ring crossing the domains at every hop and judged also against the same design with every phaseOffset 0), 10-24 cycles of random inputs; each design is run under every permutation of the '
         'clockables lists and of the driver dict order (all when <= 120 quick / 5040 thorough, sampled beyond), with the E1 trace '
         'specification evaluated on the recorded events, under runs in which the clockDriver of a wrapper/block is attached, replaced or removed between calls '
         '(followed by getSimulator()) with the set of clocked leaves judged per cycle, under several splittings of the run into clk() calls including clk(0), and under histories in which Simulator.stop() is requested by a listener at every position of a clk(n) call (first, middle, last cycle, never reached, every cycle) or while idle, followed by clk(n) calls compared with n x clk(1); '
@@ -79,6 +79,128 @@ def apply_driver_action(b, act):
         return b.hw.getSimulator()
 
 
+def build(plan, **kw):
+    """netgen.build + the clock phases of the plan: a scope whose clock dict carries 'phase' gets a ClockDriver of its own with that
+    phaseOffset (same frequency as the system driver, same enable wire); plan['sysphase'] replaces the system driver by one with that
+    phaseOffset.  Done with the public constructor / attribute before the simulator exists."""
+    b = netgen.build(plan, **kw)
+    py4hw = P()
+    if plan.get('sysphase') is not None:
+        old = b.hw.clockDriver
+        b.hw.clockDriver = py4hw.ClockDriver(old.name, freq=old.freq, phaseOffset=plan['sysphase'])
+    for sc in plan.get('scopes', []):
+        ck = sc.get('clock')
+        if ck and ck.get('phase') is not None:
+            en = b.W[ck['enable']] if ck.get('enable') else None
+            b.boxes[sc['path']].clockDriver = py4hw.ClockDriver(ck['name'], freq=b.hw.clockDriver.freq, phaseOffset=ck['phase'], enable=en)
+    return b
+
+
+PHASES = (0, 5, 12.5, 25, 33, 50, 66, 75, 90, 99)
+
+
+def gen_phased(rnd, n_seq):
+    """2-3 clock domains of EQUAL frequency whose drivers differ in phaseOffset (system driver included), ungated or gated (poked
+    input, toggling register, registered input), with a register ring that crosses the domains at every hop (swap ring for two
+    registers), optional inverters on the hops and an input XORed into the ring so that every register keeps changing."""
+    g = netgen._Gen(rnd)
+    plan = g.plan
+    plan['shape'] = 'phased_domains'
+    w = rnd.choice([2, 3, 4, 8])
+    ndom = rnd.choice([2, 2, 3])
+    n_seq = max(n_seq, ndom)
+
+    def reg(d, q, scope=''):
+        plan['blocks'].append(netgen.native_block(g.bid('r'), 'Reg', dict(d=d, q=q, enable=None, reset=None), dict(reset_value=None), scope))
+
+    def cat(entry, cfg, conn, scope=''):
+        plan['blocks'].append(netgen.cat_block(g.bid('c'), entry, cfg, conn, scope))
+
+    ph = rnd.sample(PHASES, ndom)
+    if rnd.random() < 0.3:
+        ph[rnd.randrange(1, ndom)] = ph[0]            # some designs keep two drivers in phase (with 3 domains one still differs)
+    if rnd.random() < 0.5:
+        ph[0] = None                                  # system driver left as constructed (phaseOffset 0)
+    plan['sysphase'] = ph[0]
+    scopes = ['']
+    plan['scopes'] = []
+    for j in range(1, ndom):
+        mode = rnd.choice(['none', 'none', 'input', 'toggle', 'delayed'])
+        en = None
+        if mode == 'input':
+            en = g.input(1)
+        elif mode == 'toggle':
+            en = g.wire(1)
+            nen = g.wire(1)
+            cat('Not', (1, 1), [en, nen])
+            reg(nen, en)
+        elif mode == 'delayed':
+            en = g.wire(1)
+            reg(g.input(1), en)
+        path = 'ph%d' % j
+        scopes.append(path)
+        plan['scopes'].append(dict(path=path, clock=dict(name='ckP%d' % j, enable=en, mode=mode, freq=None, phase=ph[j])))
+    din = g.input(w)
+    qs = [g.wire(w) for _ in range(n_seq)]
+    off = rnd.randrange(ndom)
+    for i in range(n_seq):
+        sc = scopes[(i + off) % ndom]
+        src = qs[i - 1]
+        if i == 0:
+            t = g.wire(w)
+            cat('Xor2', (w,), [src, din, t], scope=rnd.choice(['', sc]))
+            src = t
+        elif rnd.random() < 0.3:
+            t = g.wire(w)
+            cat('Not', (w, w), [src, t], scope=rnd.choice(['', sc]))
+            src = t
+        reg(src, qs[i], scope=sc)
+    if rnd.random() < 0.5:
+        rnd.shuffle(plan['blocks'])
+    return netgen.assign_wire_scopes(plan)
+
+
+def strip_phases(plan):
+    """the same design with every driver at the default phaseOffset"""
+    import copy
+    p = copy.deepcopy(plan)
+    p['sysphase'] = None
+    for sc in p.get('scopes', []):
+        if sc.get('clock') and 'phase' in sc['clock']:
+            sc['clock']['phase'] = None
+    return p
+
+
+def check_phases(run, plan, hist, ident, stats, meta):
+    """Monitor 6: drivers that differ only in phaseOffset.  The edge is atomic over ALL domains of the simulated cycle: the post-edge
+    state is a function of the pre-edge values only, so the trajectory equals that of the design with every phaseOffset at 0."""
+    phs = [plan.get('sysphase') or 0] + [(sc['clock'].get('phase') or 0) for sc in plan.get('scopes', []) if sc.get('clock')]
+    if len(set(phs)) < 2:
+        stats['phased_designs_all_in_phase'] = stats.get('phased_designs_all_in_phase', 0) + 1
+        return
+    flat = simulate(strip_phases(plan), hist)
+    case = dict(plan=plan, hist=hist, meta=meta, mode='phase')
+    if flat['error']:
+        run.violation('design_does_not_simulate', dict(shape=plan.get('shape'), mode='phase'), case, observed=flat['error'], what='in-phase twin raises: %s' % flat['error'])
+        return
+    gated = any(sc['clock'].get('enable') for sc in plan['scopes'] if sc.get('clock'))
+    stats['phased_designs'] = stats.get('phased_designs', 0) + 1
+    stats['phased_designs_%d_domains' % len(phs)] = stats.get('phased_designs_%d_domains' % len(phs), 0) + 1
+    stats['phased_designs_gated' if gated else 'phased_designs_ungated'] = stats.get('phased_designs_gated' if gated else 'phased_designs_ungated', 0) + 1
+    stats['phased_edges_compared'] = stats.get('phased_edges_compared', 0) + len(flat['traj'])
+    prev = None
+    for wv, _ in flat['traj']:
+        if prev is not None and sum(1 for k in wv if wv[k] != prev.get(k)) >= 2:
+            stats['phased_edges_with_several_wires_changing'] = stats.get('phased_edges_with_several_wires_changing', 0) + 1
+        prev = wv
+    run.ev(len(flat['traj']))
+    d = first_diff(flat['traj'], ident['traj'])
+    if d is not None:
+        run.violation('phase_dependent', dict(differs=d[1], gated=gated, domains=len(phs)), case, expected=d[3], observed=d[4],
+                      what='after edge %d %s %s = %r with every phaseOffset 0 but %r with phaseOffsets %s: the later-phase domain did not see pre-edge values'
+                           % (d[0] + 1, d[1], d[2], d[3], d[4], phs))
+
+
 def simulate(plan, hist, sched=None, subst=None, calls=None, trace=False, domains=False):
     """returns dict(traj=[(wires, state) after each clk() call], total=[total_clks after each call], prepared=[len(Wire.prepared) ...],
     events, rec).  calls: list of (n_cycles, input dict applied before the call[, driver action applied before the call]);
@@ -94,7 +216,7 @@ def simulate(plan, hist, sched=None, subst=None, calls=None, trace=False, domain
 
     def body():
         py4hw = P()
-        b = netgen.build(plan, subst=subst)
+        b = build(plan, subst=subst)
         sim = b.simulator()
         out['prepared_at_construction'] = hooks.pending_count()
         apply_schedule(sim, sched)
@@ -419,6 +541,9 @@ def check_design(run, plan, rnd, T, cap, stats, meta, trace_every=7):
     check_splitting(run, plan, hist, rnd, ident, stats, meta)
     # Monitor 4
     check_domains(run, plan, hist, rnd, stats, meta)
+    # Monitor 6
+    if plan.get('shape') == 'phased_domains':
+        check_phases(run, plan, hist, ident, stats, meta)
     # Monitor 5
     check_runctl(run, plan, stop_script(plan, rnd), stats, meta)
     if stats['designs'] in (1, 5, 20, 60):
@@ -595,7 +720,7 @@ def run_script(plan, calls):
     """-> dict(edges=[listener notifications per call], clks=[total_clks advance per call], traj=[(wires, state) after each call], stops, error)"""
     out = dict(edges=[], clks=[], traj=[], stops=0, idle_stops=0, error=None, prepared=[])
     try:
-        b = netgen.build(plan)
+        b = build(plan)
         sim = b.simulator()
         lst = _Stopper()
         lst.sim = sim
@@ -792,13 +917,16 @@ def run_check(run, tier, seed, shard):
     run.assume('Simulator.stop() ends the RUNNING clk() call after the cycle in which it is requested (the listener is notified at the end of a cycle); a request made '
                'on the last cycle of a call, or while no call is running, has nothing left to end and is not carried over: every clk(n) call starts afresh '
                '(the unchanged clk() re-arms its run flag on entry). So clk(n) after any history containing stop() requests performs n edges, like n x clk(1)')
+    run.assume('ClockDriver.phaseOffset does not split the simulated cycle: clock drivers of equal frequency that differ in phaseOffset are all clocked on the '
+               'one edge of clk(1), every block sees pre-edge values (the unchanged Simulator._clk_cycle never reads phaseOffset; the property speaks of "each simulated clock edge" '
+               'with all prepared updates visible together). Checked per design: the trajectory equals that of the same design with every phaseOffset 0')
     quick = tier == 'quick'
     stats = {}
-    n_designs = 264 if quick else 9000
+    n_designs = 286 if quick else 9900
     cap = 120 if quick else 500
     budget = 400 if quick else 2400
     t0 = time.time()
-    shapes = netgen.SEQ_SHAPES
+    shapes = netgen.SEQ_SHAPES + ('phased_domains',)
     for i in shard_slice(range(n_designs), shard):
         if time.time() - t0 > budget or run.too_many:
             stats['designs_skipped_time'] = stats.get('designs_skipped_time', 0) + 1
@@ -808,7 +936,7 @@ def run_check(run, tier, seed, shard):
         n_seq = 2 + (i // len(shapes)) % 6
         if quick and n_seq > 5 and i % 3:
             n_seq = rnd.randint(2, 5)
-        plan = netgen.gen_seq(rnd, n_seq, shape)
+        plan = gen_phased(rnd, n_seq) if shape == 'phased_domains' else netgen.gen_seq(rnd, n_seq, shape)
         T = rnd.randint(10, 18) if quick else rnd.randint(12, 32)
         by = stats.setdefault('by_shape', {})
         by[shape] = by.get(shape, 0) + 1
@@ -832,6 +960,8 @@ def post_merge(run, tier, seed):
                    ('sequence_lists_checked', 'no Sequence data list was checked after a run'),
                    ('designs_with_different_freqs', 'no design with clock drivers of different frequencies'),
                    ('driver_changes', 'no clockDriver was changed on a live design'), ('cycles_with_a_gated_sequential_leaf', 'no cycle with a gated-off sequential leaf was judged'), ('multi_driver_designs', 'no design with two clock drivers was run'),
+                   ('phased_designs_ungated', 'no ungated design with clock drivers of different phaseOffset'), ('phased_designs_gated', 'no gated design with clock drivers of different phaseOffset'),
+                   ('phased_designs_3_domains', 'no design with three clock domains of different phaseOffset'), ('phased_edges_with_several_wires_changing', 'no edge at which registers of differently phased domains exchanged changing data'),
                    ('stop_requests_by_listener', 'no listener requested stop() during a clk() call'), ('stop_requests_while_idle', 'stop() was never requested between calls'),
                    ('runctl_calls_after_unhonoured_stop', 'no clk(n>0) call followed a stop() request made on the last cycle of a call or while idle'),
                    ('runctl_calls_after_honoured_stop', 'no clk(n>0) call followed a call that was ended early by stop()'),
@@ -859,6 +989,10 @@ def replay(run, case):
                           what='cycle %d: %s %s' % (bad['cycle'], rel, (bad[rel] or [''])[0]))
         if r['error']:
             run.violation('design_does_not_simulate', dict(mode='domains'), c, observed=r['error'], what=r['error'])
+    elif mode == 'phase':
+        ident = simulate(plan, hist, trace=True)
+        check_trace(run, ident['events'] or [], c, stats)
+        check_phases(run, plan, hist, ident, stats, c.get('meta', {}))
     elif mode == 'runctl':
         check_runctl(run, plan, c['calls'], stats, c.get('meta', {}))
     elif mode == 'split':
